@@ -115,8 +115,10 @@ static void report(int k, int fn, size_t n, int bosmode, int place, const unsign
 /* run one (content, n) under one bos mode and placement for both functions.
  * ca/cb: content (n bytes each).  fnmask: 1 bcmp, 2 memcmp */
 static int check(const unsigned char *ca, const unsigned char *cb, size_t n, int bosmode, int place, int fnmask) {
-    unsigned char *p1 = place ? ar[0] : ar[0] + 2 * PG - n;
-    unsigned char *p2 = place ? ar[1] : ar[1] + 2 * PG - n;
+    /* place 0: both end flush against the guard; 1: both at the start of the window; 2 + 8*a1 + a2: inside the window at
+     * byte offsets a1 / a2 from an 8-byte boundary (word-wise fast paths depend on the pair of alignments) */
+    unsigned char *p1 = place >= 2 ? ar[0] + 512 + (place - 2) / 8 : place ? ar[0] : ar[0] + 2 * PG - n;
+    unsigned char *p2 = place >= 2 ? ar[1] + 512 + (place - 2) % 8 : place ? ar[1] : ar[1] + 2 * PG - n;
     size_t bos1 = (bosmode == 1 || bosmode == 2) ? n : UNK;
     size_t bos2 = (bosmode == 1 || bosmode == 3) ? n : UNK;
     int want = ref_cmp(ca, cb, n), fn;
@@ -163,7 +165,7 @@ static int check(const unsigned char *ca, const unsigned char *cb, size_t n, int
     return bad;
 }
 
-static unsigned long nsamples;
+static unsigned long nsamples, single_bit_cases;
 static void all_modes(const unsigned char *ca, const unsigned char *cb, size_t n) {
     int bm, pl;
     evals++;
@@ -263,6 +265,31 @@ int main(int argc, char **argv) {
                 }
         }
 
+    /* every single-bit difference: n 1..160 and sizes around the powers of two, every bit of every byte, four alignment pairs.
+     * A word-wise or vectorised fast path that folds its accumulator wrongly loses exactly such a bit. */
+    {
+        static const size_t NS[] = {191, 192, 193, 255, 256, 257, 511, 512, 513, 1023, 1024, 1025, 2048, 4095, 4096};
+        static const int PLS[] = {0, 1, 2 + 8 * 0 + 0, 2 + 8 * 0 + 1, 2 + 8 * 3 + 5, 2 + 8 * 4 + 4};
+        size_t q, bit;
+        unsigned long sb = 0;
+        for (q = 1; q <= 160 + sizeof NS / sizeof NS[0]; q++) {
+            size_t j;
+            n = q <= 160 ? q : NS[q - 161];
+            for (j = 0; j < n; j++) ca[j] = (unsigned char)rnd();
+            for (bit = 0; bit < 8 * n; bit++) {
+                int pi, bm = (int)(bit & 3);
+                if (n > 160 && (bit % 8 != 7) && (bit % 8 != 0) && (bit / 8) % 8 != 7 && bit / 8 + 9 < n) continue; /* long sizes: top/bottom bits, last bytes of words, the tail */
+                memcpy(cb, ca, n);
+                cb[bit / 8] ^= (unsigned char)(1u << (bit % 8));
+                evals++;
+                note_case(ca, cb, n);
+                for (pi = 0; pi < 6; pi++) check(ca, cb, n, bm, PLS[pi], 3);
+                sb++;
+            }
+        }
+        single_bit_cases = sb;
+    }
+
     /* random n <= 4096 */
     for (r = 0; r < nrandom; r++) {
         uint64_t k = rnd();
@@ -287,8 +314,8 @@ int main(int argc, char **argv) {
         }
         all_modes(ca, cb, n);
     }
-    printf("STAT evaluations=%lu calls=%lu distinct_nontrivial=%lu exhaustive_cases=%lu random_cases=%lu violations=%lu\n", evals,
-           calls, distinct, exh, nrandom, nviol);
+    printf("STAT evaluations=%lu calls=%lu distinct_nontrivial=%lu exhaustive_cases=%lu random_cases=%lu violations=%lu single_bit_cases=%lu\n", evals,
+           calls, distinct, exh, nrandom, nviol, single_bit_cases);
     for (i = 0; i < 6; i++)
         if (kcount[i])
             printf("KEY %s %lu\n", KEYS[i], kcount[i]);
